@@ -148,6 +148,9 @@ def versions():
     d.append("EnuV1 ::= ENUMERATED { x, y, ... }")
     d.append("EnuV2 ::= ENUMERATED { x, y, ..., z }")
     d.append("EnuV3 ::= ENUMERATED { x, y, ..., z, w }")
+    # SET versions: a later addition with a LOWER tag than an earlier one (the generator sorts additions by tag)
+    d.append("SetV1 ::= SET { a [0] INTEGER (0..7), ..., b [5] BOOLEAN OPTIONAL }")
+    d.append("SetV2 ::= SET { a [0] INTEGER (0..7), ..., b [5] BOOLEAN OPTIONAL, c [2] INTEGER (0..255) OPTIONAL }")
     d.append("WrapV1 ::= SEQUENCE { m MsgV1, tail INTEGER (0..255) }")
     d.append("WrapV2 ::= SEQUENCE { m MsgV2, tail INTEGER (0..255) }")
     d.append("WrapV3 ::= SEQUENCE { m MsgV3, tail INTEGER (0..255) }")
